@@ -12,7 +12,9 @@ Specification level.  `Oracle.pathSuffixSpec` states when a suffix exists (same 
 the prefix's normalised segments lead the value's, compared after percent-decoding) and what
 it is (the remaining normalised segments).  Proved: the suffix, appended to the prefix's
 normalised segments, gives the value's normalised segments up to percent-decoding; no suffix
-exists across absolute/relative.  `Oracle.baseSpec` is the text up to and including the last
+exists across absolute/relative; conversely a suffix always exists for a decoded prefix of equal
+absoluteness (`suffix_complete`, `suffix_isSome_iff`); the relation is reflexive, transitive with
+concatenated suffixes and antisymmetric up to decoding.  `Oracle.baseSpec` is the text up to and including the last
 `/` of the path: a prefix of the value's text without query or fragment.
 Model level: the models of `PathImpl::suffix` and `RiRefImpl::suffix` never panic on valid
 values and answer exactly what the specification says — no suffix when absoluteness, scheme or
@@ -54,6 +56,64 @@ theorem suffix_same_absoluteness (v p : Text) (s : List Text) (h : pathSuffixSpe
 theorem suffix_self (v : Text) : pathSuffixSpec v v = some [] := by
   simp [pathSuffixSpec, isPrefixDecoded]
 
+/-- **completeness** (the converse of `suffix_reconstruct`): whenever absoluteness agrees and the
+value's decoded normalised segments begin with the prefix's, a suffix exists — `none` is never
+answered for a genuine prefix -/
+theorem suffix_complete (v p : Text) (r : List Text) (ha : isAbs v = isAbs p)
+    (h : (nsegs p).map pctDecode ++ r = (nsegs v).map pctDecode) :
+    (pathSuffixSpec v p).isSome = true := by
+  have hl : (nsegs p).length ≤ (nsegs v).length := by
+    have := congrArg List.length h
+    simp only [List.length_append, List.length_map] at this
+    omega
+  have ht : ((nsegs v).take (nsegs p).length).map pctDecode = (nsegs p).map pctDecode := by
+    rw [List.map_take, ← h, List.take_left' (by simp)]
+  simp [pathSuffixSpec, isPrefixDecoded, ha, hl, ht]
+
+/-- **a suffix exists exactly for decoded prefixes of equal absoluteness** -/
+theorem suffix_isSome_iff (v p : Text) :
+    (pathSuffixSpec v p).isSome = true ↔
+      isAbs v = isAbs p ∧ ∃ r, (nsegs p).map pctDecode ++ r = (nsegs v).map pctDecode := by
+  constructor
+  · intro h
+    obtain ⟨s, hs⟩ := Option.isSome_iff_exists.mp h
+    exact ⟨suffix_same_absoluteness v p s hs, s.map pctDecode, suffix_reconstruct v p s hs⟩
+  · rintro ⟨ha, r, hr⟩
+    exact suffix_complete v p r ha hr
+
+/-- **transitivity**: the suffix over a prefix of a prefix exists and is, up to percent-decoding,
+the two suffixes one after the other -/
+theorem suffix_trans (v p q : Text) (s t : List Text)
+    (h1 : pathSuffixSpec v p = some s) (h2 : pathSuffixSpec p q = some t) :
+    ∃ u, pathSuffixSpec v q = some u ∧ u.map pctDecode = t.map pctDecode ++ s.map pctDecode := by
+  have r1 := suffix_reconstruct v p s h1
+  have r2 := suffix_reconstruct p q t h2
+  have a1 := suffix_same_absoluteness v p s h1
+  have a2 := suffix_same_absoluteness p q t h2
+  have hc := suffix_complete v q (t.map pctDecode ++ s.map pctDecode) (a1.trans a2)
+    (by rw [← List.append_assoc, r2, r1])
+  obtain ⟨u, hu⟩ := Option.isSome_iff_exists.mp hc
+  refine ⟨u, hu, ?_⟩
+  have r3 := suffix_reconstruct v q u hu
+  rw [← r1, ← r2, List.append_assoc] at r3
+  exact List.append_cancel_left r3
+
+/-- **antisymmetry**: two paths that are prefixes of each other have the same decoded normalised
+segments, and both suffixes are empty -/
+theorem suffix_antisymm (v p : Text) (s t : List Text)
+    (h1 : pathSuffixSpec v p = some s) (h2 : pathSuffixSpec p v = some t) :
+    s = [] ∧ t = [] ∧ (nsegs v).map pctDecode = (nsegs p).map pctDecode := by
+  have r1 := suffix_reconstruct v p s h1
+  have r2 := suffix_reconstruct p v t h2
+  have l1 := congrArg List.length r1
+  have l2 := congrArg List.length r2
+  simp only [List.length_append, List.length_map] at l1 l2
+  have hs : s = [] := List.eq_nil_of_length_eq_zero (by omega)
+  have ht : t = [] := List.eq_nil_of_length_eq_zero (by omega)
+  subst hs
+  refine ⟨rfl, ht, ?_⟩
+  simpa using r1.symm
+
 /-- the base carries neither query nor fragment, and keeps scheme and authority -/
 theorem base_components (x : Text) :
     baseSpec x = recompose { split x with path := upToLastSlash (split x).path, query := none, fragment := none } := rfl
@@ -65,6 +125,15 @@ theorem path_suffix_model (a p : Text) (ha : PathText a) (hp : PathText p)
     (wa : wellEscaped a = true) (wp : wellEscaped p = true) :
     Cmp.pathSuffix a p = some ((pathSuffixSpec a p).map (pushAllText [])) :=
   pathSuffix_spec a p ha hp wa wp
+
+/-- **`Path::suffix` answers `Some` exactly for decoded prefixes of equal absoluteness**
+(model level, every pair of valid paths) -/
+theorem path_suffix_some_iff (a p : Text) (ha : PathText a) (hp : PathText p)
+    (wa : wellEscaped a = true) (wp : wellEscaped p = true) :
+    (∃ x, Cmp.pathSuffix a p = some (some x)) ↔
+      isAbs a = isAbs p ∧ ∃ r, (nsegs p).map pctDecode ++ r = (nsegs a).map pctDecode := by
+  rw [path_suffix_model a p ha hp wa wp, ← suffix_isSome_iff]
+  cases pathSuffixSpec a p <;> simp
 
 /-- **`suffix` of references on the model = the specification** (`refSuffixSpec`: identical
 schemes, authorities equal up to percent-decoding, then the path suffix with the value's own query
@@ -113,5 +182,8 @@ example : Cmp.pathSuffix [0x2F, 0x61, 0x2F, 0x62] [0x2F, 0x25, 0x36, 0x31] = som
 example : baseSpec [0x73, 0x3A, 0x2F, 0x61, 0x2F, 0x62, 0x3F, 0x71] = [0x73, 0x3A, 0x2F, 0x61, 0x2F] := by decide
 example : pathSuffixSpec [0x2F, 0x61, 0x2F, 0x62] [0x2F, 0x25, 0x36, 0x31] = some [[0x62]] := by decide
 example : pathSuffixSpec [0x61] [0x2F, 0x61] = none := by decide
+-- the hypotheses of `suffix_trans` are met by /a/b/c over /a/b over /%61
+example : pathSuffixSpec [0x2F, 0x61, 0x2F, 0x62, 0x2F, 0x63] [0x2F, 0x61, 0x2F, 0x62] = some [[0x63]]
+    ∧ pathSuffixSpec [0x2F, 0x61, 0x2F, 0x62] [0x2F, 0x25, 0x36, 0x31] = some [[0x62]] := by decide
 
 end IrefVerif.Props.C16
